@@ -118,9 +118,10 @@ func c10Listing(dir string) (entries []c10Entry, dirOK bool) {
 		return nil, false
 	}
 	for _, de := range des {
-		if !de.Type().IsRegular() {
+		if !de.Type().IsRegular() && de.Type()&os.ModeSymlink == 0 {
 			continue
 		}
+		// a symbolic link counts as a file with the content a reader gets through it
 		data, err := os.ReadFile(filepath.Join(dir, de.Name()))
 		if err != nil {
 			continue
@@ -633,6 +634,7 @@ type c10Fix struct {
 	Missing   bool // the directory does not exist yet
 	StaleTmp  bool // leftovers of earlier interrupted writes
 	DirTarget bool // a directory sits where the target should go (makes the rename fail)
+	PrevLink  bool // the previous version is reached through a symbolic link under the Spec name (the data lives elsewhere)
 }
 
 func c10Prepare(dir, name string, fx c10Fix) error {
@@ -661,6 +663,16 @@ func c10Prepare(dir, name string, fx c10Fix) error {
 		}
 		if err := cache.WriteSpec(c10Spec("previous", fx.PrevNdev), name); err != nil {
 			return err
+		}
+		if fx.PrevLink {
+			target := filepath.Join(dir, c10TargetOf(name))
+			store := filepath.Join(filepath.Dir(dir), "store-"+filepath.Base(dir)+"-"+c10TargetOf(name))
+			if err := os.Rename(target, store); err != nil {
+				return err
+			}
+			if err := os.Symlink(store, target); err != nil {
+				return err
+			}
 		}
 	}
 	return nil
@@ -993,7 +1005,7 @@ func genC10(r *hx.R, tier string, scratch string) (*hx.Suite, error) {
 
 	// ---- (i) strace, undisturbed
 	for _, name := range names {
-		for _, fx := range []c10Fix{{}, {Prev: true, PrevNdev: 2}, {Missing: true}, {Prev: true, PrevNdev: 5, StaleTmp: true}} {
+		for _, fx := range []c10Fix{{}, {Prev: true, PrevNdev: 2}, {Missing: true}, {Prev: true, PrevNdev: 5, StaleTmp: true}, {Prev: true, PrevNdev: 2, PrevLink: true}} {
 			run := c10Run{Dir: newDir(), Name: name, Tag: "new", Ndev: 1 + r.Intn(4), Limit: -1, Hook: 5, Strace: true}
 			if _, err := attempt("strace", run, fx, true, mkTrace(-1, false)); err != nil {
 				return nil, err
@@ -1014,7 +1026,7 @@ func genC10(r *hx.R, tier string, scratch string) (*hx.Suite, error) {
 			}
 			for _, off := range offs {
 				run.Dir, run.Limit = newDir(), off
-				fx := c10Fix{Prev: prev, PrevNdev: 2, StaleTmp: r.Chance(0.3)}
+				fx := c10Fix{Prev: prev, PrevNdev: 2, StaleTmp: r.Chance(0.3), PrevLink: prev && r.Chance(0.4)}
 				if _, err := attempt("strace-write-failure", run, fx, true, mkTrace(off, false)); err != nil {
 					return nil, err
 				}
@@ -1039,7 +1051,7 @@ func genC10(r *hx.R, tier string, scratch string) (*hx.Suite, error) {
 	}
 	// ---- (ii) crash points
 	for _, name := range names {
-		fixes := []c10Fix{{}, {Prev: true, PrevNdev: 3}}
+		fixes := []c10Fix{{}, {Prev: true, PrevNdev: 3}, {Prev: true, PrevNdev: 2, PrevLink: true}}
 		if thorough {
 			fixes = append(fixes, c10Fix{Missing: true}, c10Fix{Prev: true, PrevNdev: 1, StaleTmp: true})
 		} else if name != "vendor" {
@@ -1081,7 +1093,7 @@ func genC10(r *hx.R, tier string, scratch string) (*hx.Suite, error) {
 			}
 			for _, off := range offs {
 				run := c10Run{Dir: newDir(), Name: name, Tag: "new", Ndev: ndev, Limit: off, Hook: 5}
-				fx := c10Fix{Prev: prev, PrevNdev: 1 + r.Intn(3)}
+				fx := c10Fix{Prev: prev, PrevNdev: 1 + r.Intn(3), PrevLink: prev && r.Chance(0.4)}
 				if _, err := attempt("write-failure", run, fx, true, mkLimit(off)); err != nil {
 					return nil, err
 				}
@@ -1103,6 +1115,7 @@ func genC10(r *hx.R, tier string, scratch string) (*hx.Suite, error) {
 		name := hx.Pick(r, names)
 		dir := newDir()
 		fx := c10Fix{Prev: r.Chance(0.5), PrevNdev: 1 + r.Intn(5), StaleTmp: r.Chance(0.3)}
+		fx.PrevLink = fx.Prev && r.Chance(0.3)
 		if err := c10Prepare(dir, name, fx); err != nil {
 			return nil, err
 		}
